@@ -1,5 +1,5 @@
 """Registry of all translators: Gen/<name>.v  <-  function returning Coq text."""
-from translate import ops, gatecode, wrapper, groupsum, guards, parse, models, dispatch, thermo, libio, persist, sampling
+from translate import ops, gatecode, wrapper, groupsum, guards, parse, models, dispatch, thermo, libio, persist, sampling, storage
 
 ALL = {
     "Ops": ops.gen_ops,
@@ -17,4 +17,5 @@ ALL = {
     "LibIO": libio.gen_libio,
     "Persist": persist.gen_persist,
     "Sampling": sampling.gen_sampling,
+    "Storage": storage.gen_storage,
 }
